@@ -119,6 +119,12 @@ func runC11(c *Ctx) bool {
 		for _, op := range []string{"text", "json", "walk", "dryrun"} {
 			emit(&Case{Kind: "endless-reader", Opt: map[string]string{"op": op}, Seed: gen.New(c.Seed, 1112, uint64(idx)).Uint64()})
 		}
+		// (7c) a callback that neither returns nil nor an error: it ends the goroutine it runs in
+		// (runtime.Goexit, i.e. t.FailNow / t.SkipNow / require.* in a test). The call still
+		// returns and leaves nothing behind
+		for _, fam := range []string{"markdown", "root"} {
+			emit(&Case{Kind: "goexit-callback", Opt: map[string]string{"op": "walk", "family": fam}, Seed: gen.New(c.Seed, 1113, uint64(idx)).Uint64()})
+		}
 		// (8) a writer that accepts nothing (its first Write blocks) while the context expires or is cancelled
 		for _, op := range []string{"text", "json", "yaml", "dryrun"} {
 			emit(&Case{Kind: "silent-writer", Opt: map[string]string{"op": op}, Seed: gen.New(c.Seed, 1111, uint64(idx)).Uint64()})
@@ -166,6 +172,8 @@ type c11Exec struct {
 	readerAny io.Reader // used instead of reader when set
 	writer   *mon.RecWriter
 	cbFailAt int // walk: callback fails at this visit (<0 never)
+	cbExit   bool // walk: the callback ends its goroutine (runtime.Goexit) at visit cbExitAt
+	cbExitAt int
 	target   string
 	sched    *mon.Sched
 	onReturn func() // called as soon as the call has returned, before the leak monitor looks
@@ -213,6 +221,9 @@ func (e *c11Exec) run(lm *mon.LeakMonitor) {
 		<-mu
 		if e.cbFailAt >= 0 && i >= e.cbFailAt {
 			return errC11Callback
+		}
+		if e.cbExit && i == e.cbExitAt {
+			runtime.Goexit() // what t.FailNow / t.Skip / require.* do inside a callback
 		}
 		return nil
 	}
@@ -788,6 +799,32 @@ func evalC11(c *Ctx, cs *Case, lm *mon.LeakMonitor) {
 					c.Violation(cs, "reads-after-return", op, det)
 				}
 			}
+			cancel()
+			if !ok {
+				recycle()
+			}
+		}
+
+	case cs.Kind == "goexit-callback":
+		for i := 0; i < c.Pick(6, 30); i++ {
+			nRoots := r.Range(1, 9)
+			f, doc := c11Doc(r, nRoots, nil, "")
+			ctx, cancel := context.WithCancel(context.Background())
+			e := &c11Exec{op: "walk", doc: []byte(doc), ctx: ctx, cbFailAt: -1, cbExit: true, sched: mon.NewSched(mon.ProfNone, r.Uint64())}
+			total := model.Merge(f).Size()
+			e.cbExitAt = r.Intn(total)
+			if cs.Opt["family"] == "root" {
+				e.fromRoot, e.root = true, BuildRoot(model.Merge(f)[0])
+				e.cbExitAt = r.Intn(model.Merge(f)[0].Size())
+			}
+			cs.N = []int{i, e.cbExitAt}
+			cs.SetDoc(doc)
+			c.Rejournal(cs)
+			e.run(lm)
+			c.Eval(key("goexit"+strconv.Itoa(i)), true)
+			c.Count("calls_whose_callback_ended_its_goroutine", 1)
+			det := map[string]any{"doc": trunc(doc, 400), "run": i, "goexit_at_visit": e.cbExitAt, "family": cs.Opt["family"]}
+			ok := c11Judge(c, cs, e, det)
 			cancel()
 			if !ok {
 				recycle()
